@@ -592,6 +592,12 @@ def text_fd_to_metric_families(fd):
                 seen_groups = set()
                 allowed_names = [sample.name]
 
+            if is_nh:
+                # A native histogram sample has no float value and possibly no labels:
+                # none of the per-sample checks below applies to it.
+                samples.append(sample)
+                continue
+
             if typ == 'stateset' and name not in sample.labels:
                 raise ValueError("Stateset missing label: " + line)
             if (name + '_bucket' == sample.name
